@@ -1,7 +1,8 @@
 (* Properties/C02.v — One addressing scheme: flatten, lookup, search and JSON pointers agree. *)
 From Coq Require Import List String Bool ZArith Arith Permutation.
 From YT Require Import Base.Str Base.KV Model.Doc Model.Dom Model.Pointer Model.Path Model.Builder
-  Proofs.StrProofs Proofs.PathProofs Proofs.PropsPathProofs Proofs.FrameProofs Proofs.RebuildProofs Proofs.FlattenMapProofs Proofs.RebuildExactProofs.
+  Proofs.StrProofs Proofs.PathProofs Proofs.PropsPathProofs Proofs.FrameProofs Proofs.RebuildProofs Proofs.FlattenMapProofs Proofs.RebuildExactProofs Proofs.FlattenSortedProofs.
+From Coq Require Import Sorted.
 Import ListNotations.
 Local Open Scope list_scope.
 
@@ -120,6 +121,27 @@ Theorem C02_rebuild_any_order_exact : forall kvs (l : list (string * scalar)),
   forall e, In e (flatten (Con (fold_left put_path l []))) <-> In e (flatten (Con kvs)).
 Proof. exact rebuild_any_order_exact. Qed.
 Print Assumptions C02_rebuild_any_order_exact.
+
+(* Flatten lists the scalar positions in ONE canonical order — members by name, items by index,
+   lexicographically along the position — so the flattened LIST is determined by the set of pairs. *)
+Theorem C02_flatten_sorted : forall d, wf d = true -> StronglySorted plt (flatten_steps d).
+Proof. exact flatten_steps_sorted. Qed.
+Print Assumptions C02_flatten_sorted.
+
+Theorem C02_flatten_determined : forall d1 d2,
+  wf d1 = true -> wf d2 = true ->
+  (forall tau w, In (tau, w) (flatten_steps d1) <-> In (tau, w) (flatten_steps d2)) ->
+  flatten_steps d1 = flatten_steps d2.
+Proof. exact flatten_steps_determined. Qed.
+Print Assumptions C02_flatten_determined.
+
+(* hence the rebuild equation of the property as written: Flatten(rebuilt) = Flatten(d) *)
+Theorem C02_rebuild_flatten : forall kvs (l : list (string * scalar)),
+  wf (Con kvs) = true -> keys_safe (Con kvs) = true -> eis (Con kvs) = true ->
+  Permutation l (flatten (Con kvs)) ->
+  flatten (Con (fold_left put_path l [])) = flatten (Con kvs).
+Proof. exact rebuild_flatten_eq. Qed.
+Print Assumptions C02_rebuild_flatten.
 
 (* non-vacuity: a list in a list in a list, digit-only keys *)
 Example C02_ex :
